@@ -476,14 +476,12 @@ class _SyncWs:
         return item
 
     def close(self):
-        was_open = self.conn['state'] == 'open'
-        if was_open:
+        if self.conn['state'] == 'open':
             self.conn['state'] = 'closedbyclient'
             self.connected = False
             self.w.out.append({'k': 'wsclosed'})
+            self.conn['inq'].put_quiet(_CLOSED)       # wakes a receiver
         self._log('ws_close')
-        if was_open:
-            self.conn['inq'].put(_CLOSED)       # wakes a receiver
 
 
 # ================================= asyncio client ===========================================
